@@ -57,6 +57,26 @@ def make_tree(rng, root, nfiles):
     return files
 
 
+def tree_tokens(files):
+    """preorder tokens of the directory tree for the model's c20.walk: f<hex> | d<n> (<name hex> <node>)*; children in the order
+    filepath.Walk visits them (sorted by name, bytewise)"""
+    root = {}
+    for rel, data in files.items():
+        parts = rel.encode().split(b'/')
+        d = root
+        for pth in parts[:-1]:
+            d = d.setdefault(pth, {})
+        d[parts[-1]] = data
+    def enc(node):
+        if isinstance(node, bytes):
+            return ['f' + hexs(node)]
+        out = ['d%d' % len(node)]
+        for name in sorted(node):
+            out += [hexs(name)] + enc(node[name])
+        return out
+    return ' '.join(enc(root))
+
+
 def stale(path, n):
     """an output file left over from an earlier run (longer or shorter than what will be written)"""
     with open(path, 'wb') as f:
@@ -159,20 +179,16 @@ def _run(ctx, rng, thorough, T):
             cwd = root
             cmd[2] = ['.', './', '../' + os.path.basename(root) + '/.'][(ti // 3) % 3]
         op = f'c20.gen-bundle-dir tree={ti} ver={ver} files={sorted(files)}'
-        # expected: one exchange per regular file (+ one per directory containing index.html)
-        urlops = [f'path.url {hexs(base)} {hexs(rel.encode())}' for rel in sorted(files)]
-        murls = ctx.model(urlops)
-        expected = {}
-        for rel, mu in zip(sorted(files), murls):
-            u = unhex(mu.split(' ')[1])
-            if rel.endswith('index.html'):
-                expected[u] = 'redirect'
-                d = rel[:-len('index.html')]
-                du = unhex(ctx.model([f'path.url {hexs(base)} {hexs((d.rstrip("/") or ".").encode())}'])[0].split(' ')[1])
-                if d: du = du if du.endswith(b'/') else du + b'/'
-                expected[du] = 'file:' + hashlib.sha256(files[rel]).hexdigest()
-            else:
-                expected[u] = 'file:' + hashlib.sha256(files[rel]).hexdigest()
+        # expected: the model's directory walk (Model/DirWalk.lean; theorems C20.dir_walk_*) on the same tree
+        mw = ctx.model([f'c20.walk {hexs(base)} {tree_tokens(files)}'])[0]
+        expected, nexpected = {}, 0
+        if mw and mw.startswith('ok '):
+            for ent in ([] if mw[3:] == '.' else mw[3:].split(',')):
+                u, kind = ent.split('~')
+                nexpected += 1
+                expected[unhex(u)] = 'redirect' if kind == 'r' else 'file:' + hashlib.sha256(unhex(kind[1:])).hexdigest()
+        else:
+            ctx.infra.append(f'model c20.walk failed: {mw}')
         if ver == 'b1' or rng.random() < 0.5:
             prim = sorted(u for u, kind in expected.items() if kind != 'redirect')[0]
             cmd += ['-primaryURL', prim.decode()]
@@ -184,16 +200,17 @@ def _run(ctx, rng, thorough, T):
         rec(ctx, 'c20.dump-bundle-accepts tree=%d' % ti, 'exit %d' % rc2, 'exit 0')
         data = open(outp, 'rb').read()
         g, m = read_stage(ctx, [hexs(data)])
-        got = {}
+        got, ngot = {}, 0
         if g and g[0] and g[0].startswith('ok '):
             exs = g[0].split(' ')[5]
             for e in ([] if exs == '.' else exs.split(',')):
                 u, st, hs, body = e.split('~')
+                ngot += 1
                 if st == '301':
                     got[unhex(u)] = 'redirect'
                 else:
                     got[unhex(u)] = 'file:' + hashlib.sha256(unhex(body)).hexdigest()
-        rec(ctx, op, json.dumps(sorted((k.decode('latin1'), v) for k, v in got.items())), json.dumps(sorted((k.decode('latin1'), v) for k, v in expected.items())))
+        rec(ctx, op, json.dumps([ngot] + sorted((k.decode('latin1'), v) for k, v in got.items())), json.dumps([nexpected] + sorted((k.decode('latin1'), v) for k, v in expected.items())))
         # ------------------------------------------------------------ B. sign-bundle signatures-section
         if ti % 2 == 0:
             kk = keys[['ec-sec1-params-p256', 'ec-pkcs8-p384', 'ec-sec1-p256', 'ec-pkcs8-p256'][(ti // 2) % 4]]
